@@ -149,7 +149,12 @@ def run_impl(sc, rng=None):
             else:
                 moved = wrappers[t].write(bytes(int(size)))
                 debt = lim._write_sleep_amortised
-            assert moved == int(size)
+            if moved != int(size):
+                # the wrapper did not hand on what the underlying stream delivered / accepted: a transparency failure,
+                # reported by exercise() with this scenario as the failing input
+                sc['_short'] = {'call': len(out), 'thread': t, 'underlying': int(size), 'through_wrapper': moved}
+                pending = [[] for _ in range(n)]
+                break
             out.append({'thread': t, 'begin': begin, 'lat': lat, 'size': size, 'over': over, 'gap': gap,
                         'lock': sim.lock_taken_at, 'time': log[-1][1], 'sleep': sum(sim.sleeps, Fr(0)), 'debt': Fr(debt)})
         consts = (Fr(lim.PAUSE_LIMIT), Fr(lim.PAUSE_THRESHOLD_SECONDS))
@@ -418,6 +423,35 @@ def transparency_case(rng, idx):
     stack = rng.choice(['bare', 'reader', 'writer'])
     enable_bar = rng.random() < 0.15
     ops = []
+    if rng.random() < 0.35:
+        # whole passes over the stream: read to the end (until a read returns nothing), then rewind / seek to the middle /
+        # seek relative to the end and read again - what a backend does that hashes a stream before sending it, or retries
+        if not init:
+            init = rng.randbytes(rng.choice([1, 10, 100, 1000]))
+        n = len(init)
+        c = rng.choice([1, 7, 64, 100, 1000, 10000, -1])
+
+        def full_pass(start):
+            if stack == 'writer':
+                return [['write', rng.randbytes(rng.choice([1, 3, 50])).hex()] for _ in range(rng.randint(1, 4))]
+            left = n - start
+            k = 1 if c == -1 else -(-left // c)
+            return [['read', c] for _ in range(k + rng.choice([1, 1, 2]))]      # the last read(s) hit the end of the stream
+        ops += full_pass(0)
+        for _ in range(rng.choice([1, 1, 2, 3])):
+            kind = rng.choice(['rewind', 'middle', 'from_end', 'retry'])
+            if kind == 'rewind':
+                ops += [['seek', 0, 0]] + full_pass(0)
+            elif kind == 'middle':
+                m = rng.randint(0, n)
+                ops += [['seek', m, 0]] + full_pass(m)
+            elif kind == 'from_end':
+                ops += [['seek', 0, 2], ['seek', 0, 0]] + full_pass(0)
+            else:
+                ops += [['seek', 0, 0]] + ([['read', -1]] if stack != 'writer' else full_pass(0))
+            if stack == 'bare' and rng.random() < 0.3:
+                ops.append(['tell'])
+        return {'init': init.hex(), 'limit': limit, 'stack': stack, 'ops': ops, 'bar': enable_bar}
     for _ in range(rng.randint(1, 25)):
         k = rng.random()
         if stack == 'reader':
@@ -516,6 +550,17 @@ def exercise(scs, rep, rng, with_model=True):
     done = []
     for sc in scs:
         calls, consts = run_impl(sc, rng)
+        if sc.get('_short'):
+            sh = sc['_short']
+            verb = 'read' if sc['dir'] == 'r' else 'write'
+            rep.violations.append({
+                'what': (f'the rate-limited wrapper is not transparent: in call #{sh["call"]} of stream {sh["thread"]} the underlying stream '
+                         f'{"delivered" if verb == "read" else "accepted"} {sh["underlying"]} bytes but {verb}() through the wrapper returned '
+                         f'{sh["through_wrapper"]} (limit {sc["L"]} B/s, sizes so far {[int(c["size"]) for c in calls][-6:]})'),
+                'signature': {'kind': 'transparency', 'stack': 'timing-' + sc['dir']},
+                'replay': sc_public(sc)})
+            rep.case((sc['L'], sc['dir'], sc['calls'], sc['order']), nontrivial=True)
+            continue
         sc['_impl'] = calls
         sc['_consts'] = consts
         rep.case((sc['L'], sc['dir'], sc['calls'], sc['order']), nontrivial=any(c['sleep'] > 0 for c in calls))
